@@ -198,7 +198,10 @@ class Sym:
             sp.add(v.var >= lo)
             sp.add(v.var <= hi)
             if name in self.pins:
-                sp.add(v.var == int(self.pins[name]))
+                pv = int(self.pins[name])
+                if not (lo <= pv <= hi):
+                    raise IgnoreAttempt("pin outside range")
+                sp.add(v.var == pv)
             self.vars[name] = v
             return v
 
@@ -435,9 +438,15 @@ def explore(harness, params=None, pins=None, tolerate=(), budget_s=600.0,
                 st["unknown_reasons"][info] = st["unknown_reasons"].get(info, 0) + 1
                 bubble = VerificationStatus.UNKNOWN
             elif outcome == "fail":
-                st["failed"] += 1
                 code, msg, tb = info
-                if code not in seen_sig and len(st["fails"]) < max_fail:
+                if space.solver.check() == z3.unsat:
+                    # path condition infeasible (e.g. contradictory pins): not a path at all
+                    st["ignored"] += 1
+                    bubble = None
+                    code = None
+                else:
+                    st["failed"] += 1
+                if code is not None and code not in seen_sig and len(st["fails"]) < max_fail:
                     seen_sig.add(code)
                     try:
                         model = extract_model(space, sym)
